@@ -12,6 +12,7 @@ CONSTANTS
   CfiLayouts = {"none"}
   Isa = "x64"
   WithScopes = FALSE
+  Fmts = {"elf"}
   WholeOnly = FALSE
   Leads = {0}
   DropFnTables = {TRUE, FALSE}
